@@ -18,6 +18,7 @@ import (
 	"reflect"
 	"sort"
 	"strings"
+	"time"
 
 	"go.starlark.net/starlark"
 	"go.starlark.net/syntax"
@@ -236,6 +237,7 @@ type rtCase struct {
 	Kind      string   `json:"kind"` // "rt"
 	ID        int      `json:"id"`
 	Src       string   `json:"src,omitempty"`
+	Filename  string   `json:"filename"`
 	SrcLen    int      `json:"srclen"`
 	Opts      string   `json:"opts"`
 	Feats     []string `json:"feats"`
@@ -262,7 +264,7 @@ func writeProg(p *starlark.Program) ([]byte, error) {
 
 // roundTrip performs every comparison of part (a) on one source program.
 func roundTrip(id int, filename, src string, opts syntax.FileOptions, feats []string) (c rtCase) {
-	c = rtCase{Kind: "rt", ID: id, SrcLen: len(src), Opts: optsString(opts), Feats: feats}
+	c = rtCase{Kind: "rt", ID: id, Filename: filename, SrcLen: len(src), Opts: optsString(opts), Feats: feats}
 	add := func(key, what string) { c.Diffs = append(c.Diffs, diff{key, what}) }
 	defer func() {
 		if e := recover(); e != nil {
@@ -400,7 +402,7 @@ func main() {
 		childMain(os.Args[2:])
 		return
 	}
-	mode := flag.String("mode", "rt", "rt | corr | corrupt | src")
+	mode := flag.String("mode", "rt", "rt | corr | corrupt | src | hex")
 	seed := flag.Uint64("seed", 1, "seed")
 	n := flag.Int("n", 100, "number of cases")
 	small := flag.Bool("small", false, "small programs only")
@@ -417,7 +419,7 @@ func main() {
 	case "rt":
 		modeRT(*seed, *n, *small)
 	case "corr":
-		modeCorr(*seed, *n)
+		modeCorr(*seed, *n, *small)
 	case "corrupt":
 		modeCorrupt(*seed, *n)
 	case "src":
@@ -431,6 +433,20 @@ func main() {
 		c := roundTrip(0, *fname, string(data), opts, nil)
 		c.Src = ""
 		hx.Emit(c)
+	case "hex":
+		// replay of one corrupted file (hex text in -file), in a child process
+		data, err := os.ReadFile(*file)
+		if err != nil {
+			fmt.Fprintln(os.Stderr, err)
+			os.Exit(2)
+		}
+		raw, err := hex.DecodeString(strings.TrimSpace(string(data)))
+		if err != nil {
+			fmt.Fprintln(os.Stderr, err)
+			os.Exit(2)
+		}
+		res := runCases([]ccase{{class: "replay", data: raw}}, 20*time.Second)
+		hx.Emit(map[string]string{"kind": "hex", "result": res[0].res})
 	default:
 		fmt.Fprintln(os.Stderr, "unknown mode")
 		os.Exit(2)
